@@ -44,4 +44,4 @@ def all_harnesses():
 
 
 def harnesses(tier, seed):
-    return select(all_harnesses(), tier, seed, 4)
+    return select(all_harnesses(), tier, seed, 4, budget=3600, max_one=260)
